@@ -651,7 +651,7 @@ def params_normalised(repo):
         continue
       for call in au.calls_in(n.ast):
         if isinstance(call.func, ast.Name) and call.func.id == 'setattr' and len(call.args) == 3 and norm(call.args[0]) == f.params[0]:
-          v = call.args[2]
+          v = rd.expand(n, call.args[2], keep=tuple(f.params))[0]        # through locals: integer_type = int; v = integer_type(value); setattr(.., v)
           ints = [c for c in ast.walk(v) if isinstance(c, ast.Call) and isinstance(c.func, ast.Name) and c.func.id == 'int']
           if not ints:
             continue
@@ -840,3 +840,51 @@ def r1h_dict_field_keys(repo, rep, closure):
                       '%s reads %s[%s]; the field is a plain dictionary and nothing on the way establishes that the key is present: KeyError escapes (for the result heap: whenever no design was stored under that key)'
                       % (m.name, fld, key), m.loc(sub))
   rep.extra['plain_dict_field_reads'] = n_sites
+
+
+# ---------------------------------------------------------------------------------------------
+# R1i: an index array built from a possibly empty list must be of an integer type
+# ---------------------------------------------------------------------------------------------
+def r1i_index_arrays(repo, rep, closure):
+  """`A[np.array([pos[g] for g in geos])]`: np.array of an *empty* list is a float64 array, and NumPy refuses float arrays
+  as indices (IndexError) -- so positional selection through an array built without `dtype=int` fails exactly when the
+  selection is empty, which both searches produce when every geo is excluded (the documented outcome is then an empty
+  result).  Decided from the construction of the index expression; whether the list can be empty is asked of the same
+  path analysis as the divisions (a parameter of a public function / setter can)."""
+  from mmsa.props import c09
+  n = 0
+  funcs = dict(closure)
+  dcls = repo.cls('tbrmmdata.TBRMMData')
+  for m_ in dcls.all_functions():
+    funcs.setdefault(m_.qualname, m_)
+  for q, f in sorted(funcs.items()):
+    ctx = FuncCtx.of(f)
+    for node in ctx.g.nodes:
+      for e in ctx.node_exprs(node):
+        for sub in walk_no_nested(e):
+          if not (isinstance(sub, ast.Subscript) and isinstance(sub.ctx, ast.Load)):
+            continue
+          sl = ctx.rd.expand(node, sub.slice, depth=6, keep=tuple(f.params))[0]
+          for ix in (sl.elts if isinstance(sl, ast.Tuple) else [sl]):
+            if not (isinstance(ix, ast.Call) and norm(ix.func) in ('np.array', 'numpy.array', 'np.asarray', 'numpy.asarray') and ix.args):
+              continue
+            if au.kwarg(ix, 'dtype') is not None or len(ix.args) > 1:
+              continue
+            src = ix.args[0]
+            it = None
+            if isinstance(src, ast.ListComp) and len(src.generators) == 1 and not src.generators[0].ifs:
+              it = src.generators[0].iter
+            elif isinstance(src, ast.Call) and isinstance(src.func, ast.Name) and src.func.id == 'list' and len(src.args) == 1:
+              it = src.args[0]
+            if it is None:
+              continue
+            n += 1
+            S = norm(it)
+            public_param = S in f.params and (f.kind == 'setter' or not f.name.startswith('_'))
+            if public_param:
+              rep.violation('R1i/index-array', f.qualname, norm(sub)[:120],
+                            '%s selects by the index array `%s`, built from the list over `%s` without an integer dtype: for an empty %s (no geo left after the exclusions) np.array gives a float64 array and NumPy raises IndexError instead of the search returning an empty list'
+                            % (f.name, norm(ix)[:70], S, S), f.loc(sub))
+            else:
+              rep.undecided('R1i/index-array', '%s: %s' % (f.name, norm(sub)[:50]), 'the index array `%s` has no integer dtype; whether `%s` can be empty here is not decided' % (norm(ix)[:60], S), f.loc(sub))
+  rep.extra['index_arrays_without_dtype'] = n
